@@ -41,6 +41,12 @@ def fractional_worker(args):
     except Exception as ex:
         out["bad"].append({"what": "model construction raised", "detail": repr(ex)[:200]})
         return out
+    # whole-number initial values are also written the way a user writes them: Python ints / an integer array
+    if idx % 3 == 1:
+        m.initial_values = ([int(v) for v in x0], np.float64(0))
+    elif idx % 3 == 2:
+        m.initial_values = (np.array(x0, dtype=int), np.float64(0))
+    out["x0_form"] = ["float", "int list", "int array"][idx % 3]
     total = float(sum(x0))
     r0 = max(sum(rj.rate_float(defn, theta, x0)), 1e-6)
     T = min(5.0, 30.0 / r0)
